@@ -141,6 +141,11 @@ func checkValueLookup(r *Run, prog *Program, a *Anchors, pfx string) {
 			// resolved (or rejected) by a local variable before any lookup in the datum
 			seenClasses["local"]++
 			ok := (pv && ec == "nil" && isFieldOfValue(val, "value")) || (!pv && ec == "nonnil")
+			if ok && pv {
+				// … of a key/index binding: the binding's alias path is known to be empty on this path (an element alias
+				// that also carries a value must still be resolved in the datum, where the tag name and the hook apply)
+				ok = bindingPathEmpty(prog, sm, val)
+			}
 			r.Check(pfx+".lookup", "local-variable-return", pos, ok, "a return before the datum lookup must be (the bound value of a key/index binding, true, nil) or (·, false, error) — anything else resolves a selector without pointerstructure's tag name / hook; got ("+shortKey(val)+", "+present.Key()+", "+ec+")"+trail)
 			continue
 		}
@@ -472,4 +477,45 @@ func init() {
 		r.Explain = "Decides: the disposition table equals the documented one and is exhaustive; in the value lookup, not-present is returned only with a nil error and only on {lookup error is ErrNotFound (tested on the error of the final path), no unknown value, ≥2 parts, parent looked up with the same tag name/hook and all but the last part, parent kind is Map}; with an unknown value configured an ErrNotFound resolves to exactly that value before the parent is consulted; any other error is returned as an error; the unknown value is read nowhere else; both consumers return the disposition (match) / Op==ALL (quantifier) with a nil error and without consulting matcher or body. NOT decided: which lookups pointerstructure classifies as ErrNotFound."
 		r.Assume = append(r.Assume, "pointerstructure.Pointer.Get wraps ErrNotFound exactly for absent map keys and absent struct fields (read, trusted)")
 	})
+}
+
+// bindingPathEmpty: val is the value field of a binding record whose path field is known to have length 0 on the path.
+func bindingPathEmpty(prog *Program, sm *Summary, val *Sym) bool {
+	pathField := ""
+	if lt := prog.Bexpr.Types.Scope().Lookup("localVariable"); lt != nil {
+		if st, ok := lt.Type().Underlying().(*types.Struct); ok {
+			for i := 0; i < st.NumFields(); i++ {
+				if isStringSlice(st.Field(i).Type()) {
+					pathField = st.Field(i).Name()
+				}
+			}
+		}
+	}
+	if pathField == "" {
+		return false
+	}
+	var pathSym *Sym
+	switch {
+	case val.K == sField && val.A != nil:
+		pathSym = &Sym{K: sField, A: val.A, Str: pathField}
+	case val.K == sLoad && val.A != nil && val.A.K == sFieldAddr && val.A.A != nil:
+		pathSym = &Sym{K: sLoad, A: &Sym{K: sFieldAddr, A: val.A.A, Str: pathField}}
+	default:
+		return false
+	}
+	l := &Sym{K: sLen, A: pathSym}
+	if eq, known := evalEq(sm.St, l, &Sym{K: sConst, C: constant.MakeInt64(0)}); known && eq {
+		return true
+	}
+	if c, ok := sm.St.eqc[l.Key()]; ok && c == "const(0)" {
+		return true
+	}
+	// `len(path) != 0` false, `len(path) > 0` false …
+	if v, known := evalBool(sm.St, &Sym{K: sCmp, Op: token.NEQ, A: l, B: &Sym{K: sConst, C: constant.MakeInt64(0)}}); known && !v {
+		return true
+	}
+	if v, known := evalBool(sm.St, &Sym{K: sCmp, Op: token.GTR, A: l, B: &Sym{K: sConst, C: constant.MakeInt64(0)}}); known && !v {
+		return true
+	}
+	return false
 }
